@@ -628,10 +628,27 @@ fn rand_history(o: &mut Out, r: &mut Rng, d: &GDict, probes: &dyn Fn(&mut Out), 
             }
             8 => {
                 // decode-then-extend: the message becomes a decoded frame (noisy padding / reserved bits)
-                let mm = message(r, d, 4, 3);
+                let mut mm = message(r, d, 4, 3);
+                if r.chance(1, 6) {
+                    // a frame that is NOT acceptable: it carries an AVP the dictionary does not know (M clear - "optional" is
+                    // no licence to skip it and keep the lengths). The decode fails and the message stays what it was.
+                    let unk = GA { code: 7654321, vendor: if r.chance(1, 2) { None } else { Some(99) }, flags: 0, v: GV::Oct({ let n = 1 + r.below(9) as usize; r.bytes(n) }) };
+                    let at = r.below(mm.avps.len() as u64 + 1) as usize;
+                    let gi = mm.avps.iter().position(|a| matches!(a.v, GV::Grp(_)));
+                    match (gi, r.chance(1, 2)) {
+                        (Some(i), true) => {
+                            if let GV::Grp(ms) = &mut mm.avps[i].v {
+                                ms.push(unk);
+                            }
+                        }
+                        _ => mm.avps.insert(at, unk),
+                    }
+                    ls.push(format!("decode {}", hex(&mm.encode(&mut None))));
+                } else {
                 let f = if r.chance(1, 2) { mm.encode(&mut Some(r)) } else { mm.encode(&mut None) };
                 ls.push(format!("decode {}", hex(&f)));
                 m = mm;
+                }
             }
             9 => {
                 // clone a group out of the message and wrap it again
@@ -1559,6 +1576,37 @@ fn gen_c05(o: &mut Out, r: &mut Rng, d: &GDict, tier: &str) {
                 _ => format!("p,a{},p,a{},p,", k / 2 + 1, k - k / 2 - 1).replace("a0,p,", ""),
             };
             o.line(&format!("senc {}{}", pre, end));
+        }
+    }
+    // (1c) a group that is asked for its length while it is being filled (a size budget), members of every length residue
+    for variant in 0..(if thorough { 200 } else { 12 }) {
+        o.case(&format!("group budget {}", variant));
+        o.line("new 272 4 0 1 2");
+        o.line("clear");
+        o.line("grp_new");
+        let oc = d.by_type(T_OCT)[0].clone();
+        let ut = d.by_type(T_UTF8)[0].clone();
+        for k in 0..2 + variant % 4 {
+            if (variant + k) % 2 == 0 {
+                o.line("vlen");
+            }
+            let n = [3usize, 5, 1, 6, 2, 7, 9][(variant + k) % 7];
+            if k % 2 == 0 {
+                o.line(&format!("val oct {}", hexd(&r.bytes(n))));
+                o.line(&format!("grp_add_avp {} {} 0", oc.code, vend(oc.vendor)));
+            } else {
+                o.line(&format!("val utf8 {}", hexd("a".repeat(n).as_bytes())));
+                o.line(&format!("avp_new {} {} 64", ut.code, vend(ut.vendor)));
+                o.line("grp_add");
+            }
+            o.line("vlen");
+        }
+        let g = d.by_type(T_GROUPED)[0].clone();
+        o.line(&format!("add_avp {} {} 64", g.code, vend(g.vendor)));
+        o.line("ench");
+        o.line("len");
+        for k in [0usize, 19, 20, 27, 28, 29, 35, 40, 100000] {
+            o.line(&format!("encw {} {} 0 err", k, k % 3));
         }
     }
     // (2) values the wire cannot carry: Times around both ends of the 32-bit 1900-based range, at top level and in groups
